@@ -74,6 +74,8 @@ META = (META[0] + " " + META_EXTRA, META[1])
 
 def run(chk, tier):
     db = D.load("checks")
+    from ..rules import params as _PR
+    _PR.check(chk, db, ['_algorithm/', '_numeric/'], floor=150)
     funcs = [f for f in db.funcs if (f["file"].startswith("_algorithm/") or f["file"].startswith("_numeric/")) and f.get("kind") == "function"]
     n_scan = n_cursors = 0
     not_modelled = []
@@ -146,6 +148,26 @@ def run(chk, tier):
                               "the element at `%s` is never visited and is not handled after the loop" % (
                                   astx.loc(f, loop), cur, cur, beg, beg), {"where": astx.loc(f, loop)})
     chk.extra["downward_scans"] = n_rev
+    n_ext = 0
+    for f in funcs:
+        r = IT.check_extremes(f)
+        if r is None:
+            continue
+        probs, inst = r
+        if not inst:
+            continue
+        n_ext += 1
+        construct = astx.sig(f)
+        chk.instance("TIE-ELEM")
+        chk.obligation("TIE-ELEM", construct, not probs, evaluations=3 * inst)
+        for h, node, o, got, need in probs[:1]:
+            chk.violation("TIE-ELEM", construct, "wrong-equivalent-element", "%s: `%s` %s replaced when the candidate is %s the element it "
+                          "designates; %s returns %s" % (astx.loc(f, node), h, "is" if got else "is not", {"<": "less than", "=": "equivalent to", ">": "greater than"}[o],
+                                                          f["n"], {"min_element": "the first smallest element", "max_element": "the first largest element",
+                                                                   "minmax_element": "the first smallest and the last largest element"}[f["n"]]),
+                          {"where": astx.loc(f)})
+    if n_ext < 3:
+        chk.analysis_broken("TIE-ELEM: only %d of min_element/max_element/minmax_element analysed (floor 3)" % n_ext)
     n_cfg = 0
     for f in funcs:
         r = IT.check_static_agreement(f)
